@@ -188,7 +188,9 @@ func (cli *client) buildRequest(base, endpoint, method, encoding string, query *
 		if err != nil {
 			return nil, err
 		}
-		request.Body = io.NopCloser(stream)
+		// fence the stream: once this attempt ends nothing may read it any more,
+		// because the next attempt rewinds and re-reads the same file
+		request.Body = compresshttp.BlockReads(stream)
 		if err := compresshttp.CompressRequest(request, encoding); err != nil {
 			return nil, err
 		}
